@@ -15,7 +15,9 @@ Inductive gerr : Type :=
 | EComponentEmptyBase | EComponentMissingBase | ELibMustBeDictionary | EBadAngle
 | EContour (e : cerr)                          (* the five OutlineBuilder errors *)
 | EXmlAttr                                     (* quick-xml: duplicated attribute *)
-| EPublicObjectLibsMustBeDictionary | EObjectLibMustBeDictionary.
+| EPublicObjectLibsMustBeDictionary | EObjectLibMustBeDictionary
+| EPlistWrite                                  (* writer: GlifWriteError::Plist *)
+| EPreexistingObjectLibs.                      (* writer, save: PreexistingPublicObjectLibsKey *)
 
 Definition res (A : Type) := result A gerr.
 
